@@ -8,7 +8,7 @@
    the simulated synchronous bus of the property (master and slave objects on one bus), [false] is a
    master whose own frames only leave (python-can default). *)
 From Coq Require Import ZArith List Bool String.
-From CV Require Import Base.Val Base.Tys Gen.NmtTables Model.RefNmt Model.Nmt Proofs.Nmt_proofs.
+From CV Require Import Base.Val Base.Tys Gen.NmtTables Model.RefNmt Model.Nmt Proofs.Nmt_proofs Gen.Src Proofs.Src_eq_nmt_emcy.
 Import ListNotations.
 Open Scope string_scope.
 Open Scope list_scope.
@@ -164,6 +164,13 @@ Example C11_nv_waits :
   snd (wait_for_bootup (0, None) [(false, [5]); (true, [0])]) = Err E_NMT.
 Proof. vm_compute. repeat split; repeat constructor. Qed.
 
+(* Tie to the source text: NmtMaster.on_heartbeat as translated from the CURRENT source by tools/py2coq.py
+   (Gen/Src.v, regenerated on every run) computes the model's new (_state, _state_received) and callback argument. *)
+Theorem C11_source_heartbeat_is_model : forall m b rest,
+  on_heartbeat m (b :: rest) =
+  Ok ((fst (src_nmt_heartbeat b), Some (snd (src_nmt_heartbeat b))), snd (src_nmt_heartbeat b)).
+Proof. exact src_nmt_heartbeat_eq. Qed.
+
 Print Assumptions C11_master_frame.
 Print Assumptions C11_master_frame_by_name.
 Print Assumptions C11_invalid_name_rejected.
@@ -177,3 +184,4 @@ Print Assumptions C11_heartbeat_decoding.
 Print Assumptions C11_heartbeat_reports_slave.
 Print Assumptions C11_wait_heartbeat_partial.
 Print Assumptions C11_wait_bootup_partial.
+Print Assumptions C11_source_heartbeat_is_model.
